@@ -228,7 +228,16 @@ def check(model: Model, run: Run) -> None:
                 writers.append((fq, fi, "dynamic", n))
             elif isinstance(n, (ast.Subscript,)) and isinstance(n.ctx, (ast.Store, ast.Del)) and isinstance(n.value, ast.Attribute) and n.value.attr == OBUF:
                 writers.append((fq, fi, "subscript-store", n))
-    run.floor("outgoing buffer writers", len(writers), 3)
+    # the buffer handed to something else (a writer constructed over it, a pack_into(buffer) helper) is written by that something
+    for fq, fi in list(model.functions.items()):
+        if isinstance(fi.node, ast.Lambda):
+            continue
+        for n in ast.walk(fi.node):
+            if isinstance(n, ast.Call):
+                for a in list(n.args) + [k.value for k in n.keywords]:
+                    if isinstance(a, ast.Attribute) and a.attr == OBUF and not (isinstance(n.func, ast.Name) and n.func.id in ("len", "bytes", "bool", "memoryview", "bytearray")):
+                        writers.append((fq, fi, "escapes-to:" + norm(n.func)[:40], n))
+    run.floor("outgoing buffer writers", len(writers), 2)
     drain = model.find_method(BASE, "data_to_send")
     if drain is None:
         raise AnalysisError("LDAPSession.data_to_send not found")
@@ -246,6 +255,19 @@ def check(model: Model, run: Run) -> None:
         run.ob("W1-buffer-writers", ok, {"function": fq, "kind": kind})
         if not ok:
             run.fail(Finding("W1-buffer-writers", fq, f"{kind}:{norm(n)[:80]}", why, model.loc(fi.module, n)))
+    # only the application drains: nothing inside the package calls the drain function (an error path that empties the buffer
+    # into an exception attribute makes the bytes of earlier, successful sends disappear from the stream)
+    for fq, fi in list(model.functions.items()):
+        if isinstance(fi.node, ast.Lambda):
+            continue
+        for n in ast.walk(fi.node):
+            if isinstance(n, ast.Call) and isinstance(n.func, ast.Attribute) and n.func.attr == drain.name and fi is not drain and \
+                    not (isinstance(n.func.value, ast.Call) and isinstance(n.func.value.func, ast.Name) and n.func.value.func.id == "super" and fi.name == drain.name):
+                run.ob("W3-only-the-application-drains", False, {"function": fq})
+                run.fail(Finding("W3-only-the-application-drains", fq, norm(n)[:80],
+                                 f"{fq.split('sansldap.')[-1]} calls {drain.name}() itself: pending bytes of successful sends leave the outgoing stream through another door",
+                                 model.loc(fi.module, n)))
+    run.ob("W3-only-the-application-drains", True)
     # aliases: any local bound to the buffer attribute outside the drain function and mutated is out of model
     # ---- (a2) every append is the encoding of the message being sent ------------
     napp = 0
@@ -262,6 +284,9 @@ def check(model: Model, run: Run) -> None:
                     run.ob("W1-buffer-writers", False)
                     run.fail(Finding("W1-buffer-writers", e.func, e.text, f"outgoing buffer mutated with .{e.b}() outside the drain function", where(ex, e), p.trace()))
     run.floor("append effects", napp, 20)
+    # ... and pack() is a function of the message alone (no shared writer, no cache): the bytes of one send cannot depend on another
+    from .c01 import purity
+    purity(model, run, None)
     # ---- (b) cut consistency in the drain function ---------------------------
     da = DrainAnalysis(model, drain)
     paths = da.run()
